@@ -627,6 +627,8 @@ func (v SolutionVehicle) Unplan() (bool, error) {
 				"undoing failed unplan vehicle failed: %v", constraint,
 			)
 		}
+		// Nothing was un-planned, the stops are back on the vehicle.
+		return false, nil
 	}
 
 	return true, nil
